@@ -1036,6 +1036,11 @@ fn check_c14(case: &Case, cfg: &RunCfg, sem: &Sem, res: &RunResult, order: (usiz
             "soft-made-sat",
             "hard problem is unsolvable but solve with soft requirements returned a solution".into(),
         )),
+        // "adding soft requirements never turns a solvable problem into an error": a panic is one
+        Outcome::Panic(p) if hard_sat => acc.violation(v(
+            &format!("soft-made-panic:{}", p.site),
+            format!("hard problem is solvable but solve with soft requirements panicked at {}: {}", p.site, p.msg),
+        )),
         _ => {}
     }
     if let Outcome::Ok(sol) = &res.outcome {
